@@ -3,46 +3,72 @@
 ENTRY = {'coq_dir': 'C13',
  'harness': 'c13',
  'cases': {'quick': 20000, 'thorough': 120000},
- 'consts': ['REQUEST_TIMEOUT_SECS'],
+ 'consts': ['REQUEST_TIMEOUT_SECS', 'DEFAULT_CHANNEL_SIZE', 'C13_SELECT_ARMS', 'C13_ERROR_VARIANTS'],
  'nontrivial_min_trace': 40,
- 'rule': 'seeded random histories (3-50 stimuli quick, 5-120 thorough) over <=4 peers; 45% dialogue-shaped (the generator tracks a rough estimate of '
-         'connections, open commands, carriers and waiting inbound requests so that most stimuli hit), the rest in five random styles (one with a '
-         'transport manager whose belief about the peers changes all the time). Stimuli: try_send_request / try_send_request_with_fallback and the '
-         'async send_request / send_request_with_fallback with Dial/Reject (also to the local peer id), bursts of try_send_request against a command '
-         'channel of capacity 1-3 optionally followed by an async send_request that has to wait (and either gets through or is dropped while '
-         'waiting), cancel_request, send_response / send_response_with_feedback / reject_request (for a pending request or for an arbitrary request '
-         'id), the environment of dial(): the manager is made to believe the peer unknown / disconnected with an address / connected / dialing / '
-         'disconnected with an empty address store / disconnected with a dial record / opening (usually the truth after ConnectionEstablished and '
-         'ConnectionClosed, often lagging behind or running ahead), its command channel is filled up or closed - so that dial() returns Ok (with and '
-         'without a DialPeer command), TriedToDialSelf, AlreadyConnected, NoAddressAvailable, TaskClosed and ChannelClogged; ConnectionEstablished '
-         '(also with a dead command channel, or one with room for only k substream-open commands), ConnectionClosed, DialFailure, SubstreamOpened '
-         '(main or fallback name) / SubstreamOpenFailure (three error kinds) in any order, carriers that block, accept or fail writes, remote '
-         'responses / EOF / reset / oversize frames, clock advances across the request timeout, a response (or a cancel) and the timeout made ready '
-         'at the same instant, inbound substreams with and without a bound, payload lengths {0,1,2,7,200,max-1,max,max+1} with max in '
-         '{16,300,1024,70000,2^20}, the user dropping the handle / the service channel closing (the loop ends). 80% of the histories end with the '
-         'environment discharging what it owes (DialFailure for every accepted unanswered dial, then either ConnectionClosed for every connection or '
-         'SubstreamOpenFailure for every unanswered open with the connections staying, then 2*timeout+1 ms pass), which makes the exactly-one clause '
-         'decidable for every request of the history. Every case is run on two fresh protocol objects, both as the REAL RequestResponseProtocol::run '
-         'future polled by hand on a paused clock: (A) default channel sizes - its events and the bookkeeping the loop itself publishes each time it '
-         'comes back to its select! (peers/active/active_inbound, pending_dials, pending_outbound, cancel handles, the three future counts) are '
-         'printed; (C) event channel of capacity 1, the loop parking inside handlers until the user drains - any difference to A is marked in the '
-         'trace. User-visible events, dial() calls with their results, OpenSubstream commands, frames that reached the remote end and the '
-         'bookkeeping are compared with the extracted Coq model after every stimulus; non-trivial = trace of >= 40 numbers; distinct = distinct '
-         '(case, trace) pairs',
+ 'rule': 'seeded random cases of four kinds. (1) 80%: single-node histories (3-50 stimuli quick, 5-120 thorough) over <=4 peers; 38% dialogue-shaped '
+         '(the generator tracks a rough estimate of connections, open commands, carriers and waiting inbound requests so that most stimuli hit), the '
+         'rest in five random styles (one with a transport manager whose belief about the peers changes all the time). Stimuli: try_send_request / '
+         'try_send_request_with_fallback and the async send_request / send_request_with_fallback with Dial/Reject (also to the local peer id), '
+         'bursts of try_send_request against a command channel of capacity 1-3 optionally followed by an async send_request that has to wait (and '
+         'either gets through or is dropped while waiting), cancel_request, send_response / send_response_with_feedback / reject_request (for a '
+         'pending request or for an arbitrary request id), the environment of dial(): the manager is made to believe the peer unknown / disconnected '
+         'with an address / connected / dialing / disconnected with an empty address store / disconnected with a dial record / opening (usually the '
+         'truth after ConnectionEstablished and ConnectionClosed, often lagging behind or running ahead), its command channel is filled up or closed '
+         '- so that dial() returns Ok (with and without a DialPeer command), TriedToDialSelf, AlreadyConnected, NoAddressAvailable, TaskClosed and '
+         'ChannelClogged; ConnectionEstablished (also with a dead command channel, or one with room for only k substream-open commands), '
+         'ConnectionClosed, DialFailure, SubstreamOpened (main or fallback name) / SubstreamOpenFailure (15 error kinds: every SubstreamError '
+         'variant, the four i/o-NotConnected shapes that RejectReason::from singles out, the multistream-select failure, near misses with another '
+         'i/o kind) in any order, carriers that block, accept or fail writes, remote responses / EOF / reset / oversize frames, clock advances '
+         'across the request timeout, a response (or a cancel) and the timeout made ready at the same instant, inbound substreams with and without a '
+         'bound, payload lengths {0,1,2,7,200,max-1,max,max+1} with max in {16,300,1024,70000,2^20}, the user dropping the handle / the service '
+         'channel closing (the loop ends). 80% of the histories end with the environment discharging what it owes (DialFailure for every accepted '
+         'unanswered dial, then either ConnectionClosed for every connection or SubstreamOpenFailure for every unanswered open with the connections '
+         'staying, then 2*timeout+1 ms pass), which makes the exactly-one clause decidable for every request of the history. Every case is run on '
+         'two fresh protocol objects, both as the REAL RequestResponseProtocol::run future polled by hand on a paused clock: (A) default channel '
+         'sizes - its events and the bookkeeping the loop itself publishes each time it comes back to its select! (peers/active/active_inbound, '
+         'pending_dials, pending_outbound, cancel handles, the three future counts) are printed; (C) event channel of capacity 1, the loop parking '
+         'inside handlers until the user drains - any difference to A is marked in the trace. User-visible events, dial() calls with their results, '
+         'OpenSubstream commands, frames that reached the remote end and the bookkeeping are compared with the extracted Coq model after every '
+         "stimulus; non-trivial = trace of >= 40 numbers; distinct = distinct (case, trace) pairs; the header's flags field also chooses the "
+         'configured timeout (ConfigBuilder default / with_timeout(5 s) / 1001 ms / 7777 ms), the start value of the shared id allocator (0, '
+         'usize::MAX-2, usize::MAX-17, usize::MAX: ids wrap, the trace prints them relative to the start value) and the keep-alive timeout of the '
+         'TransportService (10^9 s / 1 ns: connection handles are downgraded whenever time passes and open_substream upgrades them). (2) 6%: inbound '
+         'floods against the bound (silent inbound substreams, requests the user never answers, up to 10^7 ms passing, connections closing under '
+         'them, further substreams from other peers, the occasional request / answer / end of stream that frees a slot). (3) 14%: TWO real protocol '
+         'objects (format coq/C13/Glue2.v): each with its own scripted environment and user; conversations move through their stages in both '
+         'directions and interleaved - request sent, substream opened at the requester and handed to the other node as an inbound substream (the two '
+         'carriers are linked), request bytes carried over (all of them or cut at a random offset, under a read script of up to 7 events: at most k '
+         "bytes / stall / end of stream / read error, k in {1,2,3,5,64,100000}), answered or rejected by the other node's user, response bytes "
+         'carried back the same way - with cancels, clock advances (the two nodes share the clock), closed connections, blocked and failing writes, '
+         'requests to third peers, local read-side stimuli aimed at linked carriers (ignored), raw responses, an event loop that ends; payload '
+         'lengths {0,1,2,7,max-1,max,max+1} with max in {16,300,1024,70000} in both directions; two records (node A, node B) per move with full '
+         'bookkeeping dumps; 80% end with both nodes flushed. (4) the corpus: 89 two-node dialogues with request and response payloads of 0, 1, '
+         'max-1, max, max+1 bytes in both directions (max 16 and 300) plus a wrapped-allocator dialogue, besides the single-node witnesses',
  'trusted_base': ['the real event loop run() is driven directly (hand-polled future, noop waker, paused tokio clock); the bookkeeping is read '
-                  'through a cfg(verif) probe at the top of the loop (thread-local copy of the private maps); no copy of the loop is involved any '
-                  'more',
+                  'through a cfg(verif) probe at the top of the loop (thread-local copy of the private maps, taken per protocol object right after '
+                  'its poll); the hand-stepped copy of the loop that the hook file still carried was removed in this round',
                   'environment of the model = the scripted harness: transport events arrive only through the real TransportService, which is '
                   'attached to the handle of a real TransportManager that is never run - the harness overwrites its peer table and fills/closes its '
                   'command channel, so dial() is the real TransportManagerHandle::dial on a scripted state (its result is logged by a cfg(verif) '
                   'probe in TransportService::dial and compared with the model; ImmediateDialError::PeerIdMissing cannot come out of dial(peer) and '
                   'is covered by the theorems only); the remote side answers a request only after the whole request frame arrived; scripted '
-                  'connections read their command channel after the loop has come to rest; connection handles stay Active (the keep-alive downgrade '
-                  "path of open_substream is C08's subject)",
+                  'connections read their command channel after the loop has come to rest; with the ka flag connection handles are downgraded by the '
+                  'real KeepAliveTracker and upgraded again by open_substream (the harness keeps a sender of the command channel, so an upgrade '
+                  "never fails: a failed upgrade differs from a dead command channel only in whether a substream id is drawn - C08's subject)",
                   'tokio paused clock drives request timeouts; clock advances are chosen so that no deadline is hit exactly; when a response and a '
                   "timeout are ready at once tokio's unbiased select! decides - the harness observes the outcome and reruns the twin object until it "
                   'made the same choice',
-                  "in-memory carrier under the crate's Substream type (Substream::verif_new); framing itself is C04's subject"],
+                  "in-memory carriers under the crate's Substream type (Substream::verif_new); in two-node cases the harness is the courier between "
+                  'two such carriers: it hands a prefix of the bytes one real node wrote to the real Substream reader of the other node under the '
+                  "read script; the model computes what that reader returns with C04's reader model (V.C04.Model.poll_next), which C04's own check "
+                  'ties to src/substream/mod.rs; only the completion of a read is a model event (the reader state is private to the future that owns '
+                  'the substream), so a delivery is one move; a frame is delivered at most once per link and direction',
+                  'payloads are the byte patterns tag, tag+1, ... (mod 256) of a given length: the harness reports a received payload as (length, '
+                  'first byte) only if every byte fits the pattern (else tag 1000, which no model trace contains), so byte-identity is checked on '
+                  'every byte',
+                  'tools/gen_c13_tables.py (regex-level reading of handle.rs, mod.rs, config.rs, error.rs): what it extracts is compared with the '
+                  "model's tables by C13_tables_in_sync; what it does not look at (bodies of handlers beyond the listed token sequences) is tied by "
+                  'the differential runs only'],
  'level_text': 'Proof: for every sequence of stimuli (user commands, transport-service events in any order, every result of dial(), carrier events '
                'of the remote side, clock advances) the model of the event loop emits at most one terminal event per request id (C13_at_most_one). '
                'Exactly one, without a premise on the final state: after ANY history, once the environment has discharged what it owes by its own '
@@ -66,23 +92,107 @@ ENTRY = {'coq_dir': 'C13',
                "empty AND once the environment's ledger (recomputed from the observed dial results, OpenSubstream commands and carrier hand-overs - "
                'the executable face of C13_exactly_one_contract) is discharged, a refused dial fails its request in the same step with that very '
                'error, every frame on the wire is the right request variant / the response the user supplied, responses byte-identical, one '
-               'RequestReceived per inbound substream, the inbound bound, nothing after the loop has ended.',
- 'level_note': 'The unrepaired code violated the property (F-C13a: a second request to a peer that is still being dialed overwrote '
-               'pending_dials[peer]; the first request never got an outcome; C13_unrepaired_refuted) - repaired by a fix: commit, witness kept in '
-               'corpus/C13. Modelled since round 4: every result of dial() as an environment choice (the manager lagging behind ConnectionClosed, a '
-               'peer that on_connection_established did not register because no substream could be opened, a dial already in progress, clogged / '
-               'closed command channel), failure codes naming the ImmediateDialError variant, three kinds of SubstreamOpenFailure errors, async '
-               'send_request (waiting, dropped while waiting), responses for arbitrary request ids, the loop ending (handle dropped, service channel '
-               'closed), payloads up to 1 MiB. Not modelled: partial frames (C04), what the remote side sees when the loop ends (carriers are '
-               'dropped), a DialPeer command silently refused by the manager later on (F-C05c: then a dial stays owed forever and the contract '
-               'premise never holds), the keep-alive downgrade of connection handles (C08). Neither the user stalling on a RequestReceived nor a '
-               'remote that opens a substream and never sends its request has a timeout in the code: the slot stays occupied (the bound is '
-               'respected; the model does the same). Timeouts are events that fire when the clock passes their deadline; the request timeout must be '
-               'positive for the exactly-one theorems (it is 5 s in the source).',
+               'RequestReceived per inbound substream, the inbound bound, nothing after the loop has ended. EXTENSION ROUND (33 theorems). Two '
+               'nodes: TwoNode.v composes two copies of the event-loop model, each with its own environment, over the C04 substream contract - what '
+               "one node writes on a linked carrier is C04's frame of the payload, what the other node reads is C04's incremental reader run over "
+               'any prefix of those bytes under any fragmentation / stall / end-of-stream / error script (C13_carrier_contract, an instance of '
+               'C04_reader_roundtrip). Every node of the composed system is a run of the single-node model (C13_two_node_projection), so at most one '
+               '/ exactly one hold at either node (C13_two_node_at_most_one, C13_two_node_exactly_one, C13_two_node_responder_once). THE COMPOSITION '
+               'THEOREM C13_two_node_response_identical: for every history of the two-node system a response delivered at the requester for rid on a '
+               "linked substream is byte-identical to what the OTHER node's user supplied with send_response for inbound request id irid, irid is "
+               'the request read from the other end of that very substream, and what that user was handed as the request is byte-identical to the '
+               'request frame written for rid (C13_two_node_request_identical), which is the payload given to send_request or its fallback variant '
+               '(C13_two_node_request_wire). Responder side of one node: a response frame on an inbound carrier is the payload the user gave for the '
+               'request id read from that carrier (C13_response_wire); of all send_response / reject_request calls for an id at most one finds the '
+               'oneshot sender (C13_respond_once). Inbound bound without timeouts, as theorems of what the code does: only a stimulus on its own '
+               'carrier removes a reader (C13_reader_leaves_only_on_carrier_event); with all slots taken by silent remotes no request is ever handed '
+               'to the user again, whatever time passes (C13_silent_remotes_pin_slots, C13_full_refuses). The id allocator wraps at 2^64: the '
+               'renaming model id -> implementation id is injective below 2^64 allocations (C13_alloc_wrap). Enums, match arms, select! order, '
+               'future outcome sequences and configuration extracted from the source equal the tables the model was written for; every error has one '
+               'code, codes are distinct (C13_tables_in_sync). Tie: the two-node stream runs two REAL protocol objects whose substreams are real '
+               "Substream objects over byte pipes couriered by the harness; per move both nodes' events and bookkeeping are compared with the "
+               "extracted composed model, and the oracle prop_ok2 re-judges the byte-identical clause end to end on the implementation's traces "
+               "(request at the responder = request variant the requester's user sent for the id bound to that substream; response at the requester "
+               "= what the responder's user supplied for the inbound id that this link delivered; rid matches; one request per link), every frame "
+               'either node puts on any wire (Glue1.frames_ok with per-node carrier books), at most one / exactly one after the flush and the '
+               'inbound bound at both nodes.',
+ 'level_note': 'The unrepaired code violated the property (F-C13a, repaired by a fix: commit in round 1, witness kept in corpus/C13; '
+               'C13_unrepaired_refuted). No new defect of the property text was found in this round. OBSERVATION (what the code does, stated as '
+               'theorems, not a defect of the text): neither a remote that opens a substream and never sends its request nor a user who never '
+               'answers a RequestReceived has a timeout - the slot stays occupied until the carrier yields something / the user answers; with '
+               'max_concurrent_inbound_requests = m, m silent substreams of ONE peer make the node refuse every inbound request of EVERY peer for as '
+               'long as those substreams stay open (C13_silent_remotes_pin_slots); the bound itself is respected and the ConfigBuilder documentation '
+               'says requests above the maximum are dropped. Modelled since this round: two nodes end to end, partial frames / faults at any byte '
+               "offset / fragmented and stalling reads (through C04's reader model), what the other node sees when an event loop ends (what had been "
+               "written, else the end of the stream), the handle's pending_responses (answer at most once), the allocator's wrap-around (renaming), "
+               'with_timeout, 15 SubstreamOpenFailure shapes, the keep-alive downgrade/upgrade path of open_substream (exercised; its result is an '
+               'environment choice of the model). Not modelled: a DialPeer command silently refused by the manager later on (F-C05c: then a dial '
+               'stays owed forever and the contract premise never holds); a failed upgrade of a downgraded connection handle (differs from a dead '
+               "command channel only in whether a substream id is drawn; C08); a node whose max message size differs from its peer's (two-node cases "
+               'share max_size; an oversize frame arriving is covered by the single-node stream); a response frame that arrives before the requester '
+               'has finished writing its request (the courier delivers responses only to a requester whose request is out); equivariance of the '
+               'event loop under the id renaming is tested (allocator started at usize::MAX-k), not proved - the theorem is about the renaming only. '
+               'Timeouts are events that fire when the clock passes their deadline; the request timeout must be positive for the exactly-one '
+               'theorems (with_timeout(0) is accepted by the API and not exercised).',
  'assumptions': ['request ids come from the shared allocator (send_request/try_send_request), never chosen by the user',
                  'C13_exactly_one_flushed / C13_exactly_one_contract: the environment discharges what it owes - every accepted dial is answered by '
                  "ConnectionEstablished or DialFailure, every accepted open_substream by SubstreamOpened, SubstreamOpenFailure or the peer's "
                  'ConnectionClosed, and every carrier handed to a request future sees a terminal event of its request or the request timeout (> 0) '
                  'passes',
                  "HashMap/FuturesUnordered iteration order is not observable (events of one step and dumps are sorted); the order in which tokio's "
-                 'select! looks at two simultaneously ready branches is an input of the model']}
+                 'select! looks at two simultaneously ready branches is an input of the model',
+                 "two-node theorems: the read side of a linked carrier is fed by the other node's bytes only (local read-side stimuli that resolve "
+                 'to a linked carrier are ignored by model and harness alike); each direction of a link is delivered at most once',
+                 "C13_carrier_contract rests on C04's model of the Substream reader (V.C04.Properties.C04_reader_roundtrip), tied to "
+                 'src/substream/mod.rs by ./check C04'],
+ 'clause_map': [['each request results in at most one terminal event carrying its request id',
+                 ['C13_at_most_one', 'C13_two_node_at_most_one'],
+                 'main stream, all case kinds: per-stimulus diff of events + oracle nodup(term ids) (single node: Glue1.prop_ok; both nodes: '
+                 'Glue2.node_final_ok)'],
+                ['and in exactly one (the response or a failure) unless the user cancelled it',
+                 ['C13_exactly_one_flushed',
+                  'C13_flush_discharges',
+                  'C13_opens_on_connections',
+                  'C13_exactly_one_contract',
+                  'C13_exactly_one',
+                  'C13_exactly_one_settled',
+                  'C13_two_node_exactly_one'],
+                 "80% of the histories end with the environment's flush (ops 30/31; both nodes in two-node cases): oracle `answered` on the "
+                 "implementation's trace, with the protocol's books quiescent and with the recomputed ledger discharged"],
+                ['when the peer must first be dialed',
+                 ['C13_send_dial_step', 'C13_dial_refused_one_failure', 'C13_dial_res_cases', 'C13_unrepaired_refuted'],
+                 'every dial() result as environment choice (op 28/29/22 + real TransportManagerHandle::dial, result logged by probe, event 11), '
+                 'corpus two_requests_while_dialing'],
+                ['when several requests target the same peer concurrently',
+                 ['C13_payload', 'C13_at_most_one'],
+                 'bursts (ops 18/24), dialogue generator, answers in the opposite order; two-node: interleaved conversations over several links'],
+                ['when connections drop, substreams fail or peers stay silent',
+                 ['C13_exactly_one_flushed', 'C13_tables_in_sync'],
+                 'ops 3/4/6 (15 failure kinds)/8/10/11/17, timeouts (op 12, four configured timeouts), soft flush (op 31: connections stay, silent '
+                 'peers must time out); two-node: bytes cut at any offset, end of stream / read error in the script, event loop of the other node '
+                 'ending'],
+                ['a delivered response is byte-identical to what the responder supplied for that very request',
+                 ['C13_two_node_response_identical',
+                  'C13_carrier_contract',
+                  'C13_two_node_request_identical',
+                  'C13_two_node_request_wire',
+                  'C13_payload',
+                  'C13_request_wire',
+                  'C13_response_wire',
+                  'C13_respond_once',
+                  'C13_feedback'],
+                 'two-node cases (two real nodes, real Substreams over couriered byte pipes, payloads 0/1/max-1/max/max+1 both directions, '
+                 'fragmented): oracle prop_ok2 (response = supplied for the inbound id of that link, rid matches) + per-move diff; single node: '
+                 'frames_ok on every frame on the wire, byte pattern checked on every byte'],
+                ['the responder sees each request once',
+                 ['C13_responder_once', 'C13_two_node_responder_once', 'C13_two_node_request_identical', 'C13_response_wire'],
+                 'one RequestReceived per inbound substream (oracle `used`; two-node: l_reqd per link), a second frame on the same carrier is not '
+                 'shown (corpus inbound_feedback)'],
+                ['the configured bound on concurrent inbound requests is respected',
+                 ['C13_inbound_bound', 'C13_full_refuses', 'C13_silent_remotes_pin_slots', 'C13_reader_leaves_only_on_carrier_event'],
+                 'bookkeeping dump after every stimulus (readers + responders <= bound, oracle), flood generator (silent remotes, stalling user, '
+                 '10^7 ms), both nodes of two-node cases'],
+                ['(tie of enums / mappings / configuration)',
+                 ['C13_tables_in_sync', 'C13_alloc_wrap', 'C13_channel_nothing_lost', 'C13_steps_flatten', 'C13_two_node_projection'],
+                 'tools/gen_c13_tables.py on every check -> coq/gen/C13Tables.v + harness/src/gen_c13_tables.rs (harness refuses to run on unknown '
+                 'variants); twin run with an event channel of capacity 1; allocator started at usize::MAX-k']]}
